@@ -414,6 +414,24 @@ func (it *Interp) callBuiltin(fr *frame, b *ssa.Builtin, args []Value, site ssa.
 				}
 			}
 			return nil
+		case GSlice:
+			// zero every element (in place)
+			var et types.Type
+			if sig, ok := b.Type().(*types.Signature); ok && sig.Params().Len() == 1 {
+				if st, ok := sig.Params().At(0).Type().Underlying().(*types.Slice); ok {
+					et = st.Elem()
+				}
+			}
+			if et == nil {
+				break
+			}
+			for i := range v.D {
+				p := &v.D[i]
+				old := *p
+				it.undo = append(it.undo, func() { *p = old })
+				*p = it.zero(et)
+			}
+			return nil
 		}
 	case "ssa:wrapnilchk":
 		if p, ok := args[0].(Ptr); ok && p.P == nil {
